@@ -117,6 +117,11 @@ int main(int argc, char** argv) {
         r2.reset(); x.reset();
         expect_destroyed({0, 1, 2, 3}, 4);
     }
+    else if (sc == "empty_use_count") {    // not a nested-handle case: use_count() of an empty handle (std::shared_ptr: 0)
+        P e;
+        expect(!e.unique(), "unique() of an empty handle");
+        expect(e.use_count() == 0, "use_count() of an empty handle is not 0");
+    }
     else { printf("bad: unknown scenario\n"); return 2; }
     printf("%s\n", g_bad.empty() ? "ok" : ("bad: " + g_bad).c_str());
     return 0;
